@@ -35,4 +35,179 @@ theorem C02_partial_sqlite : C02_driver Tables_sqlite.tables := C02_driver_gener
 theorem C02_partial_mysql : C02_driver Tables_mysql.tables := C02_driver_generic _ Tables_mysql.valid
 theorem C02_partial_mindsdb : C02_driver Tables_mindsdb.tables := C02_driver_generic _ Tables_mindsdb.valid
 
+/-! ### [review] additions (reviewer rev-lr-opm): a stronger raise-mode clause and non-vacuity examples -/
+
+-- [review]
+theorem C02_review_doReduce_not_none (T : Tables) (c : Cfg) (p : Nat) (e : Option ErrInfo) (lg : List Nat) :
+    doReduce T c p ≠ .inr (.none_ e lg) := by
+  unfold doReduce
+  cases T.prods.get? p with
+  | none => simp
+  | some pr =>
+    simp only
+    split
+    · simp
+    · cases T.rows.get? (topState (List.drop pr.rhs.length c.st)) with
+      | none => simp
+      | some r =>
+        simp only
+        cases r.goto pr.lhs <;> simp
+
+-- [review]
+theorem C02_review_fetch_err (bad : Bool) (c c' : Cfg) (l : LA) (h : fetch bad c = .inl (c', l)) :
+    c'.err = c.err := by
+  unfold fetch at h
+  cases hla : c.la with
+  | some l0 => simp [hla] at h; rw [← h.1]
+  | none =>
+    simp only [hla] at h
+    cases hlas : c.las with
+    | cons l0 ls => simp [hlas] at h; rw [← h.1]
+    | nil =>
+      simp only [hlas] at h
+      cases hin : c.input with
+      | cons t ts => simp [hin] at h; rw [← h.1]
+      | nil =>
+        simp only [hin] at h
+        cases bad with
+        | true => simp at h
+        | false => simp at h; rw [← h.1]
+
+-- [review]
+theorem C02_review_fetch_inr (bad : Bool) (c : Cfg) (o : Outcome) (h : fetch bad c = .inr o) :
+    ∃ lg, o = .lexErr lg := by
+  unfold fetch at h
+  cases hla : c.la with
+  | some l0 => simp [hla] at h
+  | none =>
+    simp only [hla] at h
+    cases hlas : c.las with
+    | cons l0 ls => simp [hlas] at h
+    | nil =>
+      simp only [hlas] at h
+      cases hin : c.input with
+      | cons t ts => simp [hin] at h
+      | nil =>
+        simp only [hin] at h
+        cases bad with
+        | true => simp at h; exact ⟨_, h.symm⟩
+        | false => simp at h
+
+-- [review]
+theorem C02_review_doError_raise (bad : Bool) (c : Cfg) (s : Nat) (l : LA) (e : Option ErrInfo) (lg : List Nat)
+    (h : doError .raise bad c s l = .inr (.none_ e lg)) : e = c.err := by
+  unfold doError errCallback at h
+  by_cases hc : (c.errcount == 0 || c.errok) = true
+  · simp [hc] at h
+  · simp only [hc] at h
+    simp only [Bool.false_eq_true, if_false] at h
+    unfold recover at h
+    simp only at h
+    split at h
+    · cases h
+    · split at h
+      · simp at h; exact h.1.symm
+      · split at h
+        · split at h <;> cases h
+        · cases h
+
+
+-- [review]
+theorem C02_review_step_none_err (T : Tables) (bad : Bool) (c : Cfg) (e : Option ErrInfo) (lg : List Nat)
+    (h : step T .raise bad c = .inr (.none_ e lg)) : e = c.err := by
+  unfold step at h
+  simp only at h
+  cases hr : T.rows.get? (topState c.st) with
+  | none => simp [hr] at h
+  | some row =>
+    simp only [hr] at h
+    cases hd : row.dflt with
+    | some p => simp only [hd] at h; exact absurd h (C02_review_doReduce_not_none T c p e lg)
+    | none =>
+      simp only [hd] at h
+      cases hf : fetch bad c with
+      | inr o =>
+        obtain ⟨lg', rfl⟩ := C02_review_fetch_inr bad c o hf
+        simp [hf] at h
+      | inl cl =>
+        obtain ⟨c1, l⟩ := cl
+        have herr := C02_review_fetch_err bad c c1 l hf
+        simp only [hf] at h
+        cases ha : row.action l.term with
+        | shift s' => simp [ha] at h
+        | reduce p => simp only [ha] at h; exact absurd h (C02_review_doReduce_not_none T c1 p e lg)
+        | accept =>
+          simp only [ha] at h
+          unfold doAccept at h
+          split at h
+          · simp at h; rw [← herr]; exact h.1.symm
+          · simp at h
+        | none =>
+          simp only [ha] at h
+          rw [← herr]
+          exact C02_review_doError_raise bad c1 _ l e lg h
+
+-- [review]
+theorem C02_review_run_raise_never_none {T : Tables} (hv : Valid T) (toks : List Nat) (bad : Bool) :
+    ∀ (fuel : Nat) (c : Cfg), Clean T toks bad c → ∀ e lg, run T .raise bad fuel c ≠ .none_ e lg := by
+  intro fuel
+  induction fuel with
+  | zero => intro c _ e lg; simp [run]
+  | succ n ih =>
+    intro c hc e lg
+    have hs := step_clean hv .raise hc
+    unfold run
+    cases hstep : step T .raise bad c with
+    | inl c' =>
+      rw [hstep] at hs
+      simp only
+      rcases hs with h | ⟨h, _⟩
+      · exact ih c' h e lg
+      · cases h
+    | inr o =>
+      rw [hstep] at hs
+      simp only
+      intro ho
+      subst ho
+      have := C02_review_step_none_err T bad c e lg hstep
+      rw [hc.noerr] at this
+      exact hs this
+
+/-- [review] In the dialects whose `error()` raises (sqlite, mysql), `Parser.parse` never returns `None`:
+`parse_sql` therefore never reaches `parser.error_info` (an attribute those parsers do not have — it would be an
+`AttributeError`).  Stronger than the `.none_ e _ => e ≠ none` clause of `C02_driver`, which for raise mode only
+says "if `None` is returned then error info was recorded". -/
+theorem C02_review_raise_never_none (T : Tables) (hv : T.valid = true) (bad : Bool) (toks : List Nat)
+    (h0 : ∀ x ∈ toks, x ≠ 0) (fuel : Nat) (e : Option ErrInfo) (lg : List Nat) :
+    parse T .raise bad toks fuel ≠ .none_ e lg :=
+  C02_review_run_raise_never_none (valid_of_eq hv) toks bad fuel _ (clean_init toks bad h0) e lg
+
+theorem C02_review_raise_never_none_sqlite (bad : Bool) (toks : List Nat) (h0 : ∀ x ∈ toks, x ≠ 0) (fuel : Nat)
+    (e : Option ErrInfo) (lg : List Nat) : parse Tables_sqlite.tables .raise bad toks fuel ≠ .none_ e lg :=
+  C02_review_raise_never_none _ Tables_sqlite.valid bad toks h0 fuel e lg
+theorem C02_review_raise_never_none_mysql (bad : Bool) (toks : List Nat) (h0 : ∀ x ∈ toks, x ≠ 0) (fuel : Nat)
+    (e : Option ErrInfo) (lg : List Nat) : parse Tables_mysql.tables .raise bad toks fuel ≠ .none_ e lg :=
+  C02_review_raise_never_none _ Tables_mysql.valid bad toks h0 fuel e lg
+
+/-! [review] non-vacuity of the non-trivial branches of `C02_driver`: on the real tables the three error outcomes
+do occur, with the well-formedness the theorem states (kernel-evaluated, independent of the theorem) -/
+-- [review] mindsdb: first token doubled -> `None` with error info pointing at token 1
+example : (match parse Tables_mindsdb.tables .drain false
+    (Tables_mindsdb.sample.head! :: Tables_mindsdb.sample) 10000 with
+    | .none_ (some e) _ => e.bad == some 1 | _ => false) = true := by decide +kernel
+-- [review] mindsdb: truncated statement -> `None` with error info "end of input"
+example : (match parse Tables_mindsdb.tables .drain false (Tables_mindsdb.sample.take 3) 10000 with
+    | .none_ (some e) _ => e.bad == none | _ => false) = true := by decide +kernel
+-- [review] sqlite: first token doubled -> error() raises, bad-token index 1 < length
+example : (match parse Tables_sqlite.tables .raise false
+    (Tables_sqlite.sample.head! :: Tables_sqlite.sample) 10000 with
+    | .synErr e _ => e.bad == some 1 | _ => false) = true := by decide +kernel
+-- [review] illegal character after a prefix of the statement -> the lexer's error surfaces
+example : (match parse Tables_mindsdb.tables .drain true (Tables_mindsdb.sample.take 3) 10000 with
+    | .lexErr _ => true | _ => false) = true := by decide +kernel
+-- [review] the fuel the correspondence driver uses (200*(n+2)+1000) is far from exhausted on the sample: the
+-- clause `.fuel => True` of `C02_driver` is what termination is NOT proved about
+example : (match parse Tables_mindsdb.tables .drain false Tables_mindsdb.sample 200 with
+    | .accept _ _ => true | _ => false) = true := by decide +kernel
+
 end MindsVerif.Props.C02
